@@ -41,6 +41,12 @@ IdxSeg(i) == <<48 + i>>                    \* decimal string of a one-digit inde
 IsIdxSeg(seg) == Len(seg) = 1 /\ seg[1] >= 48 /\ seg[1] <= 57
 SegIdx(seg) == seg[1] - 48
 
+\* children of a node as <<segment, child>> pairs in the node's own iteration order
+Children(n) ==
+  IF n.k = "map" THEN [i \in DOMAIN n.vs |-> <<n.ks[i], n.vs[i]>>]
+  ELSE IF n.k = "list" THEN [i \in DOMAIN n.vs |-> <<IdxSeg(i - 1), n.vs[i]>>]
+  ELSE <<>>
+
 ------------------------------------------------------------------------------
 (* compile rules (ParseSelector): which ASTs compile at all *)
 RECURSIVE CountEdges(_)
